@@ -42,8 +42,13 @@ class WorkZoneLink(M.Link):
         self.capacity = capacity
         self.reorder = reorder
 
+    hook = None  # set by a workload: called once from inside get_flow (something else happens "meanwhile")
+
     def get_flow(self, engine=None, **kwargs):
         q = super().get_flow(engine, **kwargs)
+        if self.hook is not None:
+            h, self.hook = self.hook, None
+            h()
         if self.capacity is None:
             return q
         if engine is None:
@@ -85,6 +90,9 @@ class AlineaRamp(M.MeteredOnRamp):
         super().__init__(*args, **kwargs)
         self.gain = gain
 
+    def __len__(self):  # "whole vehicles waiting" as far as plain Python can tell: the object is falsy
+        return 0
+
 
 class HovRamp(M.SimplifiedMeteredOnRamp):
     _vf_user = True
@@ -92,6 +100,9 @@ class HovRamp(M.SimplifiedMeteredOnRamp):
     def __init__(self, *args, share=0.2, **kwargs):
         super().__init__(*args, **kwargs)
         self.share = share
+
+    def __bool__(self):  # e.g. "is the HOV lane open" - nothing the library may rely on
+        return False
 
 
 class BoundaryDetector(M.Origin):
@@ -193,3 +204,59 @@ class QueueLink(M.Link):
         nxt = super().step_dynamics(net, *args, T=T, **kwargs)
         nxt["w"] = self.states["w"] + T * (500.0 - 0.1 * self.states["rho"][0] * self.states["v"][0] * self.lam)
         return nxt
+
+
+class VirtualRamp(M.Origin):
+    """A user ramp kind that does not inherit the metered ramp's constructor / states but is declared one
+    with the standard ABC mechanism (`MeteredOnRamp.register`)."""
+
+    _vf_user = True
+
+
+M.MeteredOnRamp.register(VirtualRamp)
+
+
+class Junction(M.Node):
+    """A node that keeps the detectors installed at it; one without detectors is falsy (`len() == 0`)."""
+
+    _vf_user = True
+
+    def __init__(self, name=None, detectors=()):
+        super().__init__(name)
+        self.detectors = list(detectors)
+
+    def __len__(self):
+        return len(self.detectors)
+
+
+class AdaptiveLink(M.Link):
+    """Route choice that reacts to the traffic state: the turn rate is a property computed from the link's
+    current first-segment density (with a setter for the base rate)."""
+
+    _vf_user = True
+
+    @property
+    def turnrate(self):
+        st = getattr(self, "states", None)
+        if st is None or "rho" not in st:
+            return self._base_rate
+        return self._base_rate * (1.0 + 0.02 * st["rho"][0])
+
+    @turnrate.setter
+    def turnrate(self, value):
+        self._base_rate = value
+
+
+class CappedOnRamp(M.MeteredOnRamp):
+    """A metered ramp whose flow is additionally capped by a model parameter `q_max` that travels with the other
+    model parameters of the step (keyword with a default)."""
+
+    _vf_user = True
+
+    def get_flow(self, net, T, engine=None, q_max=None, **kwargs):
+        q = super().get_flow(net, T, engine, **kwargs)
+        if q_max is None:
+            return q
+        if engine is None:
+            engine = get_current_engine()
+        return -engine.max(-q, -q_max)
